@@ -352,6 +352,10 @@ type explorer struct {
 	pointsByDepth [4]int
 	statesByDepth [4]int
 	inconclusive  int
+	// recoveries in which the queue gave up on an acknowledged message without
+	// an attempt; after two of them the scenario is not explored further (each
+	// costs graceAbandoned and they all carry the same verdict)
+	abandonedSeen int
 }
 
 // processTainted: some queue of this process was closed (or abandoned) while
@@ -380,6 +384,10 @@ func (x *explorer) explore(p path, ep *epoch, depth int) {
 		p.alts = [][]histPart{nil}
 	}
 	for i := range ep.Points {
+		if x.abandonedSeen >= 2 {
+			x.r.Count("crash_points_not_explored_after_abandon_verdicts", int64(len(ep.Points)-i))
+			return
+		}
 		cp := &ep.Points[i]
 		x.pointsByDepth[depth]++
 		x.r.Count("crash_points_enumerated", 1)
@@ -566,6 +574,9 @@ func (x *explorer) judge(p path, hist []histPart, f *facts, cp *crashPoint, rec 
 				c.Violation("acked-message-damaged/body/"+variant, fmt.Sprintf("recovery sends acknowledged message %s with a body of %d bytes, accepted %d bytes (crash at %s)", d.msg, len(d.sum.Body), len(m.bodyBytes), cp), wit(nil))
 			}
 			x.r.Count("acked_content_compared", 1)
+			for _, cl := range m.sizeClasses() {
+				x.r.Count("acked_content_compared_"+cl, 1)
+			}
 		} else if d.sum != nil && d.sum.BodyKind != "" && (!bytes.Equal(d.sum.Header, m.hdrBytes) || !bytes.Equal(d.sum.Body, m.bodyBytes)) {
 			// DESIGN observation: meta is in place before header/body are synced
 			x.r.Count("observation_unacknowledged_message_redelivered_damaged", 1)
@@ -635,6 +646,26 @@ func (x *explorer) judge(p path, hist []histPart, f *facts, cp *crashPoint, rec 
 					}
 				}
 			}
+			if cause == "" && rec.Closed && rec.Dispatched[id] > 0 && rec.Starts[id] == 0 {
+				// Logical, not timed: Queue.Close has returned, so the wheel is
+				// stopped and every delivery goroutine it had spawned is gone. The
+				// dispatcher did spawn one for this message, and it ended without
+				// calling the downstream's Start, although the stored record is
+				// complete (loadState) and lists the recipient. Nothing in this
+				// process life will attempt it, and every restart finds the same
+				// files.
+				cause = "dispatched-but-never-attempted"
+				x.abandonedSeen++
+			}
+			if cause == "" && rec.Closed && rec.Scheduled != nil && rec.Scheduled[id] == 0 && rec.Starts[id] == 0 {
+				// The start-up scan is synchronous (it runs inside the queue's
+				// constructor) and announces every stored message it puts on the
+				// time wheel. It did not announce this one although the stored
+				// record is complete (loadState) and lists the recipient: this
+				// process life will never attempt it, nor will the next.
+				cause = "skipped-by-startup-scan"
+				x.abandonedSeen++
+			}
 			if cause == "" {
 				c.Inconclusive(fmt.Sprintf("%s, crash at %s: %s of acknowledged %s is intact in the spool but was not attempted", sc.Name, strings.Join(p.points, " / "), r, id))
 				x.inconclusive++
@@ -659,18 +690,33 @@ func TestVerif(t *testing.T) {
 	for _, k := range []string{"recovered_deliveries", "recovered_reports", "acked_recipient_reported_after", "observation_orphan_files_after_crash_in_removal"} {
 		r.Count(k, 0)
 	}
-	r.Set("exhaustive_what", "per recorded execution: every mutating file-system call of the queue (before), every write (middle), each also with not-yet-fsynced data dropped, plus the end state; each spool state is paired with every harness-log prefix it can coexist with (consistent cuts between the surrounding calls); every resulting crash state is restored and recovered by a fresh queue (states identical in spool bytes and judged facts are recovered once); recursively for every crash state inside recovery runs (depth 2)")
+	r.Set("exhaustive_what", "per recorded execution: every mutating file-system call of the queue (before), every write (middle), each also with not-yet-fsynced data dropped, plus the end state; each spool state is paired with every harness-log prefix it can coexist with (consistent cuts between the surrounding calls); every resulting crash state is restored and recovered by a fresh queue (states identical in spool bytes and judged facts are recovered once); recursively for every crash state inside recovery runs (depth 2). Exception: the group S scenarios with messages of megabytes or thousands of header fields are recorded sparsely - of the writes into one header / body file only the first two and every 350th are crash points (counter fs_writes_not_used_as_crash_points_sparse), every other call of those runs is enumerated as usual")
 
 	nRandom := r.N(120, 2600)
 	total := nBaseShapes + nRandom
+	// group S (sizes_test.go): quick runs every size / shape class once,
+	// thorough several draws of each
+	nSizes := r.N(nSizeShapes, 4*nSizeShapes)
+	var indices []int
 	for i := 0; i < total; i++ {
+		indices = append(indices, i)
+	}
+	for k := 0; k < nSizes; k++ {
+		indices = append(indices, sizeBase+k)
+	}
+	for _, i := range indices {
+		i := i
 		name := fmt.Sprintf("scenario-%d", i)
 		r.Run(i, name, func(c *rep.Case) {
 			p := prng.New(r.Seed(), uint64(i), "c02")
 			var sc *scenario
-			if i < nBaseShapes {
+			switch {
+			case i >= sizeBase:
+				p = prng.New(r.Seed(), uint64(i), "c02-sizes")
+				sc = sizeScenario(i, (i-sizeBase)%nSizeShapes, p, r.Thorough())
+			case i < nBaseShapes:
 				sc = baseScenario(i, i)
-			} else {
+			default:
 				sc = randomScenario(i, p, r.Thorough())
 			}
 			tmp, err := os.MkdirTemp("", "c02-")
@@ -696,21 +742,42 @@ func TestVerif(t *testing.T) {
 				// not a recovery: the recording run itself is C01/C12 territory
 				r.Count("observation_panic_in_recording_run", ep.Panics)
 			}
+			if ep.Abandoned {
+				r.Count("observation_recording_run_gave_up_on_a_message_without_attempt", 1)
+			}
 			r.Count("fs_ops_recorded", int64(ep.Ops))
+			r.Count("fs_writes_not_used_as_crash_points_sparse", int64(ep.SkippedWrites))
 			r.Count("recording_runs", 1)
 			for k := range ep.OpKinds {
 				r.Distinct("fs_ops_seen", k)
 			}
 			x := &explorer{t: t, r: r, c: c, sc: sc, tmp: tmp, seen: map[string]bool{}}
 			x.explore(path{}, ep, 1)
+			// size / shape classes this scenario put through the crash-point
+			// enumeration (counted per acknowledged message)
+			for _, m := range sc.Msgs {
+				if m.Fate != fateCommit {
+					continue
+				}
+				for _, cl := range m.sizeClasses() {
+					r.Count("scenarios_"+cl, 1)
+				}
+				if m.AddedFields > 0 {
+					r.Count("scenarios_header_fields_added_by_pipeline", 1)
+				}
+				switch m.BodyKind {
+				case bodyBareLF, bodyBinary, bodyLongLine:
+					r.Count("scenarios_body_"+strings.ReplaceAll(m.BodyKind, "-", "_"), 1)
+				}
+			}
 			r.Distinct("scenario_names", sc.Name)
 			r.Distinct("crash_points_per_scenario", fmt.Sprintf("%04d %s: fs_ops=%d crash_points=%d (+%d inside recoveries) distinct_states_recovered=%d (+%d)", i, sc.Name, ep.Ops, x.pointsByDepth[1], x.pointsByDepth[2], x.statesByDepth[1], x.statesByDepth[2]))
-			if i < 4 || (i >= nBaseShapes && i < nBaseShapes+2) {
+			if i < 4 || (i >= nBaseShapes && i < nBaseShapes+2) || (i >= sizeBase && i < sizeBase+2) {
 				r.Sample(map[string]any{
 					"scenario": sc.describe(), "fs_ops_in_recording_run": ep.Ops,
 					"crash_points_depth1": x.pointsByDepth[1], "crash_points_depth2": x.pointsByDepth[2],
 					"distinct_crash_states_recovered_depth1": x.statesByDepth[1], "distinct_crash_states_recovered_depth2": x.statesByDepth[2],
-					"exhaustive": true, "inconclusive_recoveries": x.inconclusive,
+					"exhaustive": !sc.Sparse, "inconclusive_recoveries": x.inconclusive,
 				})
 			}
 			c.Done(sc.shape(), sc.nontrivial() && x.pointsByDepth[1] > 1)
